@@ -38,3 +38,38 @@ func verifCanary(label string, cond bool) {}
 //@   assigns e.encrypt
 //@   ensures err == nil && symAlgo(e) ==> len(ciphertext) == (len(cleartext) / e.plainttextBlockSize) * e.blockSize
 //@   ensures err == nil && symAlgo(e) ==> len(cleartext) % e.plainttextBlockSize == 0
+
+// ---------------------------------------------------------------------------
+// C22: what "the signature verified" means (ghost state written only by VerifySignature)
+// ---------------------------------------------------------------------------
+
+// certSource(x): identity of the byte array certificate x was parsed from.
+//@ ufunc certSource(*x509.Certificate) unsafe.Pointer
+// remoteKeyOf(e): the remote public key an asymmetric algorithm verifies signatures with.
+//@ ufunc remoteKeyOf(*EncryptionAlgorithm) *rsa.PublicKey
+// sigCheckedKey(sig) / sigCheckedLen(sig): the key with which, and the length of the message over
+// which, the signature buffer sig was last verified successfully (nil / arbitrary if never).
+//@ ghostmap sigCheckedKey *rsa.PublicKey
+//@ ghostmap sigCheckedLen int
+
+//@ func ParseCertificate
+//@   props C22
+//@   assumed
+//@   assigns nothing
+//@   ensures err == nil ==> result0 != nil && fresh(result0) && certSource(result0) == arr(c)
+//@   ensures err != nil ==> result0 == nil
+
+//@ func Asymmetric
+//@   props C22
+//@   assumed
+//@   assigns nothing
+//@   ensures err == nil ==> result0 != nil && fresh(result0) && remoteKeyOf(result0) == remoteKey
+//@   ensures err != nil ==> result0 == nil
+
+//@ func (*EncryptionAlgorithm).VerifySignature
+//@   props C22 C09
+//@   assumed
+//@   requires e != nil
+//@   assigns e.verifySignature, sigCheckedKey(signature), sigCheckedLen(signature)
+//@   ensures result == nil ==> sigCheckedKey(signature) == remoteKeyOf(e) && sigCheckedLen(signature) == len(message)
+//@   ensures result != nil ==> sigCheckedKey(signature) == old(sigCheckedKey(signature)) && sigCheckedLen(signature) == old(sigCheckedLen(signature))
